@@ -30,9 +30,11 @@ import (
 // --- scripted messages ---------------------------------------------------------
 
 var reqKinds = map[string]string{
-	"GET":      "GET http://a.test/x?q=1 HTTP/1.1\r\nHost: a.test\r\n%s\r\n",
-	"POSTCL":   "POST http://a.test/p HTTP/1.1\r\nHost: a.test\r\nContent-Length: 5\r\n%s\r\nhello",
-	"POSTCH":   "POST http://a.test/c HTTP/1.1\r\nHost: a.test\r\nTransfer-Encoding: chunked\r\nTrailer: X-Sum\r\n%s\r\n3\r\nabc\r\n2\r\nde\r\n0\r\nX-Sum: 9\r\n\r\n",
+	"GET":    "GET http://a.test/x?q=1 HTTP/1.1\r\nHost: a.test\r\n%s\r\n",
+	"POSTCL": "POST http://a.test/p HTTP/1.1\r\nHost: a.test\r\nContent-Length: 5\r\n%s\r\nhello",
+	"POSTCH": "POST http://a.test/c HTTP/1.1\r\nHost: a.test\r\nTransfer-Encoding: chunked\r\nTrailer: X-Sum\r\n%s\r\n3\r\nabc\r\n2\r\nde\r\n0\r\nX-Sum: 9\r\n\r\n",
+	// a trailer field that the request nominates in Connection
+	"POSTCHN":  "POST http://a.test/n HTTP/1.1\r\nHost: a.test\r\nTransfer-Encoding: chunked\r\nTrailer: X-Sum, X-Hop-T\r\nConnection: X-Hop-T\r\n%s\r\n3\r\nabc\r\n0\r\nX-Sum: 9\r\nX-Hop-T: hop\r\n\r\n",
 	"OTHER":    "GET http://b.test/y HTTP/1.1\r\nHost: b.test\r\n%s\r\n",
 	"CONNECT":  "CONNECT b.test:443 HTTP/1.1\r\nHost: b.test:443\r\n%s\r\n",
 	"GETCLOSE": "GET http://a.test/z HTTP/1.1\r\nHost: a.test\r\nConnection: close\r\n%s\r\n",
@@ -59,6 +61,7 @@ var respKinds = map[string]string{
 	"SCLOSE":   "HTTP/1.1 200 OK\r\nConnection: close\r\nContent-Length: 3\r\n\r\nbye",
 	"SHOP":     "HTTP/1.1 200 OK\r\nConnection: X-Hop\r\nX-Hop: h\r\nKeep-Alive: timeout=1\r\nContent-Length: 1\r\nX-End: e\r\n\r\nz",
 	"SHOP2":    "HTTP/1.1 200 OK\r\nConnection: X-Hop\r\nX-Hop: h\r\nConnection: X-Hop2\r\nX-Hop2: h2\r\nContent-Length: 1\r\nX-End: e\r\n\r\nz",
+	"S200CHN":  "HTTP/1.1 200 OK\r\nTransfer-Encoding: chunked\r\nTrailer: X-T, X-Hop-T\r\nConnection: X-Hop-T\r\n\r\n4\r\nwxyz\r\n0\r\nX-T: t\r\nX-Hop-T: hop\r\n\r\n",
 	"EARLYEOF": "",
 }
 
@@ -146,6 +149,27 @@ func recOfRequest(r *http.Request, wantHdr map[string][]string) reqRec {
 	body, _ := io.ReadAll(r.Body)
 	_, hasUA := r.Header["User-Agent"]
 	return reqRec{Method: r.Method, URI: r.URL.RequestURI(), Host: r.Host, Hdr: hdrString(wantHdr, "Content-Length"), Body: string(body), Trailer: hdrString(expectedHeader(r.Trailer)), HasUA: hasUA}
+}
+
+// expectedRequest is what must reach the origin for the client's request r:
+// end-to-end header fields, and trailer fields minus hop-by-hop names and the
+// names the request's Connection field nominates (a trailer field is a field).
+func expectedRequest(r *http.Request) reqRec {
+	rec := recOfRequest(r, expectedHeader(r.Header))
+	nominated := map[string]bool{}
+	for _, v := range r.Header["Connection"] {
+		for _, f := range strings.Split(v, ",") {
+			nominated[textproto.CanonicalMIMEHeaderKey(strings.TrimSpace(f))] = true
+		}
+	}
+	tr := map[string][]string{}
+	for k, v := range expectedHeader(r.Trailer) {
+		if !nominated[k] {
+			tr[k] = v
+		}
+	}
+	rec.Trailer = hdrString(tr)
+	return rec
 }
 
 type respRec struct {
@@ -239,7 +263,13 @@ func scenario(param string) vsched.Scenario {
 							break
 						}
 						b, _ := io.ReadAll(resp.Body)
-						originSent = append(originSent, respRec{resp.StatusCode, hdrString(expectedHeader(resp.Header), "Content-Length"), string(b), hdrString(expectedHeader(resp.Trailer))})
+						tr := expectedHeader(resp.Trailer)
+						for _, v := range resp.Header["Connection"] {
+							for _, f := range strings.Split(v, ",") {
+								delete(tr, textproto.CanonicalMIMEHeaderKey(strings.TrimSpace(f)))
+							}
+						}
+						originSent = append(originSent, respRec{resp.StatusCode, hdrString(expectedHeader(resp.Header), "Content-Length"), string(b), hdrString(tr)})
 						if resp.StatusCode >= 200 {
 							break
 						}
@@ -321,7 +351,7 @@ func scenario(param string) vsched.Scenario {
 					if err != nil {
 						return obs, "harness: cannot parse own request: " + err.Error()
 					}
-					want = append(want, recOfRequest(r, expectedHeader(r.Header)))
+					want = append(want, expectedRequest(r))
 					if r.Close {
 						break
 					}
@@ -373,6 +403,9 @@ func scenario(param string) vsched.Scenario {
 					return obs, fmt.Sprintf("request %d: body %q at the origin, client sent %q", i, got.Body, w.Body)
 				}
 				if got.Trailer != w.Trailer {
+					if strings.Contains(got.Trailer, "X-Hop-T=") && strings.Replace(got.Trailer, `X-Hop-T=["hop"];`, "", 1) == w.Trailer {
+						return obs, "a request trailer field nominated by Connection reached the origin"
+					}
 					return obs, fmt.Sprintf("request %d: trailer {%s} at the origin, client sent {%s}", i, got.Trailer, w.Trailer)
 				}
 			}
@@ -403,6 +436,9 @@ func scenario(param string) vsched.Scenario {
 			}
 			for i, got := range clientGot {
 				w := originSent[i]
+				if got.Status == w.Status && got.Body == w.Body && got.Trailer != w.Trailer && strings.Replace(got.Trailer, `X-Hop-T=["hop"];`, "", 1) == w.Trailer {
+					return obs, "a response trailer field nominated by Connection reached the client"
+				}
 				if got.Status != w.Status || got.Body != w.Body || got.Trailer != w.Trailer {
 					return obs, fmt.Sprintf("response %d reached the client as %d %q {%s}, origin sent %d %q {%s}", i, got.Status, got.Body, got.Trailer, w.Status, w.Body, w.Trailer)
 				}
@@ -434,9 +470,9 @@ func uaField(h string) string {
 func family(c *harness.Check) []string {
 	var out []string
 	add := func(s spec) { out = append(out, s.String()) }
-	reqs := []string{"GET", "POSTCL", "POSTCH", "GETCLOSE"}
+	reqs := []string{"GET", "POSTCL", "POSTCH", "POSTCHN", "GETCLOSE"}
 	hvs := []string{"h0", "h1", "h2", "h3", "h4"}
-	resps := []string{"S200CL", "S200CH", "S100", "S204", "S301", "SCLOSE", "SHOP", "SHOP2", "EARLYEOF"}
+	resps := []string{"S200CL", "S200CH", "S100", "S204", "S301", "SCLOSE", "SHOP", "SHOP2", "S200CHN", "EARLYEOF"}
 	for _, r := range reqs {
 		for _, h := range hvs {
 			for _, s := range resps {
